@@ -7,6 +7,7 @@ import (
 	"strconv"
 	"strings"
 
+	wmodel "github.com/metrico/qryn/writer/model"
 	"github.com/metrico/qryn/writer/utils/unmarshal"
 	common "go.opentelemetry.io/proto/otlp/common/v1"
 	v1 "go.opentelemetry.io/proto/otlp/trace/v1"
@@ -22,10 +23,60 @@ import (
 type otlpCase struct {
 	Batch  gen.OTLPBatch `json:"batch"`
 	BinIDs bool          `json:"bin_ids"`
+	// Store: the parser's responses go through the real traces insert services and the rows
+	// decoded from the INSERT blocks are what is checked and read back (see store.go). The
+	// batch is pushed as two bodies, cut before span number Split (mod the span count), both
+	// appended to the same column set before the one forced flush.
+	Store bool `json:"store,omitempty"`
+	Split int  `json:"split,omitempty"`
 }
 
 func genOTLP(rt *rapid.T) otlpCase {
-	return otlpCase{Batch: gen.GenOTLPBatch(rt), BinIDs: rapid.Bool().Draw(rt, "bin-ids")}
+	c := otlpCase{Batch: gen.GenOTLPBatch(rt), BinIDs: rapid.Bool().Draw(rt, "bin-ids")}
+	c.Store, c.Split = genStore(rt)
+	return c
+}
+
+// genStore: about a third of the cases take the storage layer in.
+func genStore(rt *rapid.T) (bool, int) {
+	if rapid.SampledFrom([]int{0, 1, 0}).Draw(rt, "via-insert-services") == 1 {
+		return true, rapid.IntRange(0, 12).Draw(rt, "split")
+	}
+	return false, 0
+}
+
+// splitOTLP cuts the batch before span number k (push order), keeping the resource/scope
+// structure on both sides; empty scopes and resources are dropped.
+func splitOTLP(b gen.OTLPBatch, k int) (gen.OTLPBatch, gen.OTLPBatch) {
+	var a, z gen.OTLPBatch
+	n := 0
+	for _, r := range b.Resources {
+		ra, rz := gen.OTLPResource{Attrs: r.Attrs}, gen.OTLPResource{Attrs: r.Attrs}
+		for _, sc := range r.Scopes {
+			sa, sz := gen.OTLPScope{Name: sc.Name, Attrs: sc.Attrs}, gen.OTLPScope{Name: sc.Name, Attrs: sc.Attrs}
+			for _, sp := range sc.Spans {
+				if n < k {
+					sa.Spans = append(sa.Spans, sp)
+				} else {
+					sz.Spans = append(sz.Spans, sp)
+				}
+				n++
+			}
+			if len(sa.Spans) > 0 {
+				ra.Scopes = append(ra.Scopes, sa)
+			}
+			if len(sz.Spans) > 0 {
+				rz.Scopes = append(rz.Scopes, sz)
+			}
+		}
+		if len(ra.Scopes) > 0 {
+			a.Resources = append(a.Resources, ra)
+		}
+		if len(rz.Scopes) > 0 {
+			z.Resources = append(z.Resources, rz)
+		}
+	}
+	return a, z
 }
 
 func floatTextMatches(v string, f float64) bool {
@@ -196,10 +247,42 @@ func predOTLP(c otlpCase, o *evid.Obs) error {
 			o.Tag(t)
 		}
 	}()
-	body := c.Batch.Body()
-	rows, tags, nresp, err := runSpanParserN(unmarshal.UnmarshalOTLPV2, body)
-	if err != nil {
-		return fmt.Errorf("well-formed OTLP batch rejected: %v", err)
+	var rows []traceRow
+	var tags []tagRow
+	var nresp int
+	if c.Store && c.Batch.NumSpans() > 0 {
+		a, z := splitOTLP(c.Batch, 1+c.Split%c.Batch.NumSpans())
+		var resps []*wmodel.ParserResponse
+		for _, part := range []gen.OTLPBatch{a, z} {
+			if part.NumSpans() == 0 {
+				continue
+			}
+			rs, err := parseSpans(unmarshal.UnmarshalOTLPV2, part.Body())
+			if err != nil {
+				return fmt.Errorf("well-formed OTLP batch rejected: %v", err)
+			}
+			resps = append(resps, rs...)
+		}
+		var err error
+		rows, tags, nresp, err = storeAndDecode(resps)
+		if err != nil {
+			if strings.HasPrefix(err.Error(), "INFRA:") {
+				o.Discard("insert-services-timeout")
+				return nil
+			}
+			return err
+		}
+		ct.Tag("via-insert-services", "via-insert-services:requests-in-one-block="+bucket(nresp))
+		if len(resps) > 2 || (len(resps) == 2 && (a.NumSpans() == 0 || z.NumSpans() == 0)) {
+			ct.Tag("flushed-mid-batch(>1MiB)")
+		}
+		nresp = 1
+	} else {
+		var err error
+		rows, tags, nresp, err = runSpanParserN(unmarshal.UnmarshalOTLPV2, c.Batch.Body())
+		if err != nil {
+			return fmt.Errorf("well-formed OTLP batch rejected: %v", err)
+		}
 	}
 	var exp []spanExpect
 	var spans []gen.OTLPSpan
@@ -527,5 +610,5 @@ func bucket(n int) string {
 }
 
 func addOTLP(r *evid.Run) {
-	evid.Add(r, evid.Prop[otlpCase]{Name: "otlp", Quick: 3000, Thorough: 30000, Gen: genOTLP, Pred: predOTLP, WAL: true})
+	evid.Add(r, evid.Prop[otlpCase]{Name: "otlp", Quick: 2000, Thorough: 20000, Gen: genOTLP, Pred: predOTLP, WAL: true})
 }
